@@ -8,6 +8,7 @@ import (
 	"fmt"
 	"net/http"
 	"net/http/httptest"
+	"time"
 
 	connect "github.com/bufbuild/connect-go"
 	"github.com/bufbuild/connect-go/verifharness/internal/h"
@@ -15,7 +16,10 @@ import (
 
 type structPanic struct{ A, B int }
 
-type passIcpt struct{ log *[]string; id int }
+type passIcpt struct {
+	log *[]string
+	id  int
+}
 
 func (p passIcpt) WrapUnary(next connect.UnaryFunc) connect.UnaryFunc {
 	return func(ctx context.Context, req connect.AnyRequest) (connect.AnyResponse, error) {
@@ -107,6 +111,17 @@ func C19(r *h.Run) {
 						for i := 0; i < inner; i++ {
 							hopts = append(hopts, connect.WithInterceptors(passIcpt{&log, 10 + i}))
 						}
+						// in a subset: the request announces a short timeout and the handler panics
+						// only after its context has ended
+						afterCtx := v.class >= 0 && v.class != 1 && (vi+pos+len(point)+len(proto))%6 == 0
+						waitCtx := func(ctx context.Context) {
+							if afterCtx {
+								select {
+								case <-ctx.Done():
+								case <-time.After(2 * time.Second):
+								}
+							}
+						}
 						doPanic := func(at string) {
 							if at == point && v.class >= 0 {
 								panic(v.val)
@@ -115,7 +130,8 @@ func C19(r *h.Run) {
 						var handler *connect.Handler
 						switch kind {
 						case "unary":
-							handler = connect.NewUnaryHandler("/verif.Svc/M", func(_ context.Context, req *connect.Request[h.Raw]) (*connect.Response[h.Raw], error) {
+							handler = connect.NewUnaryHandler("/verif.Svc/M", func(ctx context.Context, req *connect.Request[h.Raw]) (*connect.Response[h.Raw], error) {
+								waitCtx(ctx)
 								doPanic("before")
 								doPanic("between")
 								doPanic("after")
@@ -125,7 +141,8 @@ func C19(r *h.Run) {
 								return connect.NewResponse(&h.Raw{B: []byte("ok")}), nil
 							}, hopts...)
 						case "client":
-							handler = connect.NewClientStreamHandler("/verif.Svc/M", func(_ context.Context, s *connect.ClientStream[h.Raw]) (*connect.Response[h.Raw], error) {
+							handler = connect.NewClientStreamHandler("/verif.Svc/M", func(ctx context.Context, s *connect.ClientStream[h.Raw]) (*connect.Response[h.Raw], error) {
+								waitCtx(ctx)
 								doPanic("before")
 								for s.Receive() {
 								}
@@ -137,7 +154,8 @@ func C19(r *h.Run) {
 								return connect.NewResponse(&h.Raw{B: []byte("ok")}), nil
 							}, hopts...)
 						case "server":
-							handler = connect.NewServerStreamHandler("/verif.Svc/M", func(_ context.Context, _ *connect.Request[h.Raw], s *connect.ServerStream[h.Raw]) error {
+							handler = connect.NewServerStreamHandler("/verif.Svc/M", func(ctx context.Context, _ *connect.Request[h.Raw], s *connect.ServerStream[h.Raw]) error {
+								waitCtx(ctx)
 								doPanic("before")
 								_ = s.Send(&h.Raw{B: []byte("a")})
 								doPanic("between")
@@ -149,7 +167,8 @@ func C19(r *h.Run) {
 								return nil
 							}, hopts...)
 						default:
-							handler = connect.NewBidiStreamHandler("/verif.Svc/M", func(_ context.Context, s *connect.BidiStream[h.Raw, h.Raw]) error {
+							handler = connect.NewBidiStreamHandler("/verif.Svc/M", func(ctx context.Context, s *connect.BidiStream[h.Raw, h.Raw]) error {
+								waitCtx(ctx)
 								doPanic("before")
 								_, _ = s.Receive()
 								_ = s.Send(&h.Raw{B: []byte("a")})
@@ -171,9 +190,16 @@ func C19(r *h.Run) {
 						req := httptest.NewRequest(http.MethodPost, "/verif.Svc/M", bytes.NewReader(body))
 						req.ProtoMajor, req.ProtoMinor = 2, 0
 						req.Header.Set("Content-Type", ct)
+						if afterCtx {
+							if proto == "connect" {
+								req.Header.Set("Connect-Timeout-Ms", "25")
+							} else {
+								req.Header.Set("Grpc-Timeout", "25m")
+							}
+						}
 						rec := httptest.NewRecorder()
 						propagated := safely(func() { handler.ServeHTTP(rec, req) })
-						in := map[string]any{"proto": proto, "kind": kind, "panic_point": point, "panic_class": v.class, "outer": outer, "inner": inner, "recovery_function_returns": wantCode}
+						in := map[string]any{"proto": proto, "kind": kind, "panic_point": point, "panic_class": v.class, "outer": outer, "inner": inner, "recovery_function_returns": wantCode, "panics_after_its_context_ended": afterCtx}
 						r.Eval("recover", fmt.Sprint(in))
 						obs := "RNormal"
 						// what the peer sees
